@@ -27,8 +27,65 @@ def configs(tier):
     return out
 
 
+def job_deep():
+    """Structural calls far down a chain of 3000 nodes (the pinned loop check walks the parent links iteratively)."""
+    import sys
+    import anytree
+    from .. import core, tree
+
+    t = core.Tally()
+
+    def run():
+        sys.setrecursionlimit(1000)
+        for kind in ("user", "light"):
+            mk = tree.default_factory(kind)
+            nodes = [mk(i, "n%d" % i) for i in range(3001)]
+            for i in range(1, 3001):
+                nodes[i].parent = nodes[i - 1]
+            deepest, root = nodes[-1], nodes[0]
+            fresh, k0, k1 = mk(0, "f"), mk(0, "k0"), mk(0, "k1")
+            why = None
+            try:
+                fresh.parent = deepest
+                if fresh.parent is not deepest or deepest.children[-1] is not fresh:
+                    why = "fresh.parent = deepest has the wrong effect"
+                deepest.children = [k0, k1]
+                if len(deepest.children) != 2 or fresh.parent is not None or k1.parent is not deepest:
+                    why = why or "deepest.children = [k0, k1] has the wrong effect"
+            except Exception as exc:  # noqa
+                why = "a legal call 3000 levels down was refused with %s" % type(exc).__name__
+            for what, call in (("root.parent = deepest", lambda: setattr(root, "parent", deepest)),
+                               ("deepest.children = [root]", lambda: setattr(deepest, "children", [root])),
+                               ("nodes[1500].parent = deepest", lambda: setattr(nodes[1500], "parent", deepest))):
+                try:
+                    call()
+                    why = why or "%s was accepted (loop)" % what
+                except anytree.LoopError:
+                    pass
+                except Exception as exc:  # noqa
+                    why = why or "%s raised %s instead of LoopError" % (what, type(exc).__name__)
+            t.c["evaluations"] += 1
+            t.c["deep_chain_calls"] += 5
+            if why:
+                t.violation("C02: " + why, {"engine": "E2", "module": "mc.props.c02", "part": "deep", "kind": kind})
+            for nd in nodes:
+                try:
+                    nd.parent = None
+                except Exception:  # noqa
+                    pass
+
+    core.guard(t, "C02", {"engine": "E2", "module": "mc.props.c02", "part": "deep"}, run, _limit=120)
+    return t
+
+
+def replay(c):
+    return [v["why"] for v in job_deep().violations]
+
+
 def run(tier):
     t, summ = e1run.run_configs(configs(tier))
+    from .. import core
+    core.run_pool([("mc.props.c02", "job_deep", {})], 0, into=t)
     cov = {
         "states": sum(s["states"] for s in summ),
         "transitions": t.c["transitions"],
@@ -43,7 +100,7 @@ def run(tier):
     return {
         "tally": t,
         "coverage": cov,
-        "guards": ("spec:ok", "spec:noop", "spec:TreeError", "spec:LoopError", "spec:raises", "changed>=2_parents"),
+        "guards": ("spec:ok", "spec:noop", "spec:TreeError", "spec:LoopError", "spec:raises", "changed>=2_parents", "deep_chain_calls"),
         "assumptions": ["bounded universes (N<=4, 5 in thorough); hooks do not raise in this check (see C03/C16)",
                         "LightNodeMixin with non-node arguments is left undefined by the statement: not judged"],
     }
